@@ -258,6 +258,10 @@ Proof.
             |rewrite TR; corej; rewrite ?cg_trace; reflexivity|rewrite TH; corej; rewrite ?cg_thr; reflexivity
             |rewrite NE; corej; rewrite ?cg_ne; reflexivity|rewrite NI; corej; rewrite ?cg_ni; reflexivity
             |rewrite JT; exact DONE]; fail).
+  all: try (eapply J_step1 with (t := t); [exact JI|exact I|exact ET
+            |rewrite TR; corej; rewrite ?cg_trace; reflexivity|rewrite TH; corej; rewrite ?cg_thr; reflexivity
+            |rewrite NE; corej; rewrite ?cg_ne; reflexivity|rewrite NI; corej; rewrite ?cg_ni; reflexivity
+            |intros ? ?; reflexivity|rewrite JT; cbn; exact DONE]; fail).
 Qed.
 
 Lemma tck_step_J s t k b s' :
